@@ -1,11 +1,64 @@
 /-
-  Protocol ops of one area (see /verif/FRAMEWORK.md).  Not part of any theorem.  Core Lean only.
+  Protocol ops of the cache-file area (see /verif/FRAMEWORK.md).  Not part of any theorem.
+  Core Lean only.
+
+  The model never computes SHA-1 / CRC-32 / flate: every digest and every (de)compression result
+  the Go side obtained is passed IN as data and the model's parameters are instantiated with
+  constant functions (`H := fun _ => bsum`, `deflate := fun _ => deflated`, …).  What is compared
+  is everything else: the header layout, the short-read rule, which bytes are hashed, the order
+  and outcome of `Validate`, which bytes the reader is given, the crash-state enumeration.
+
+    cache.name   <hash> x<r> x<q> x<H(r‖q)>                         → x<file name>
+    cache.finish <hash> x<r> x<q> <body> <chunk> x<deflated> x<H(deflated)> → x<file bytes>
+    cache.open   <hash> x<file> x<r> x<q> x<H(file[3d:])> P          → OK x<plain> | OK RERR | ERR
+    cache.openv  <hash> <body> <chunk> x<r> x<q> <fault> x<head> <len> x<H(file[3d:])> P
+                                                                     → OK x<P> | OK RERR | ERR
+    cache.incrash <hash> x<state> x<r> x<q> x<body> x<H(body)>       → 1 | 0
+
+  `<hash>`, `<body>`, `<chunk>`, `<fault>` tell the Go side how to (re)build the real file; the
+  model ignores them.  `P` is what an independent inflate of `file[3d:]` gives (`x<bytes>`, for
+  `openv` a digest of them) or `-` when that stream is corrupt.  In `openv` the file is described
+  by its first `min len 3d` bytes and its length (big files).
 -/
 import Gts.Model.Sexp
+import Gts.Model.CacheFile
 namespace Gts
+open Gts.Cache
+
+/-- the answer of `Open` + read-all, with the inflate result `p` supplied by the caller -/
+def cacheVerdict (file r q bsum : List UInt8) (p : Sexp) : Option String :=
+  let d := bsum.length
+  match openf (fun _ => bsum) d file r q with
+  | .error _ => some "ERR"
+  | .ok _ =>
+    match p with
+    | .atom "-" => some "OK RERR"
+    | _ => do pure ("OK " ++ encBytes (← decBytes? p))
 
 def evalCache (op : String) (args : List Sexp) : Option String :=
   match op, args with
+  | "cache.name", [_, r, q, l] => do
+      let l ← decBytes? l
+      pure (encStr (name (fun _ => l) (← decBytes? r) (← decBytes? q)))
+  | "cache.finish", [_, r, q, _, _, z, b] => do
+      let b ← decBytes? b
+      let z ← decBytes? z
+      pure (encBytes (finish (fun _ => b) b.length (fun _ => z) (← decBytes? r) (← decBytes? q) []))
+  | "cache.open", [_, f, r, q, b, p] => do
+      cacheVerdict (← decBytes? f) (← decBytes? r) (← decBytes? q) (← decBytes? b) p
+  | "cache.openv", [_, _, _, r, q, _, hd, len, b, p] => do
+      let hd ← decBytes? hd
+      let b ← decBytes? b
+      let len := (← decInt? len).toNat
+      if hd.length ≠ min len (3 * b.length) then pure "BAD-ARGS"
+      else cacheVerdict (hd ++ zeros (len - hd.length)) (← decBytes? r) (← decBytes? q) b p
+  | "cache.incrash", [_, s, r, q, body, b] => do
+      let b ← decBytes? b
+      let s ← decBytes? s
+      pure (boolStr' ((crashStates (fun _ => b) b.length (← decBytes? r) (← decBytes? q)
+        (← decBytes? body)).elem s))
   | _, _ => none
+where
+  boolStr' (b : Bool) : String := if b then "1" else "0"
 
 end Gts
